@@ -93,6 +93,8 @@ def _run(pm: ProgramModel, ctx: Ctx, mb: ModelBuilder, cd: Codec) -> None:
         "two-ranges": (AObj("Domain", range_list=[AObj("Range", min_value=0, max_value=3),
                                                   AObj("Range", min_value=7, max_value=9)], element_list=[]), "2", "0"),
         "enumerated": (AObj("Domain", range_list=[], element_list=["low", "mid", "high"]), "mid", "low"),
+        "enumerated-quoted": (AObj("Domain", range_list=[], element_list=['"eco,sport"', '"a b"', "x1"]), '"a b"', "x1"),
+        "enumerated-numbers": (AObj("Domain", range_list=[], element_list=["1", "2", "30"]), "2", "1"),
     }
     for key, (dom, dflt, null) in cases.items():
         root = mb.feature("Root")
@@ -123,6 +125,15 @@ def _run(pm: ProgramModel, ctx: Ctx, mb: ModelBuilder, cd: Codec) -> None:
     }
     for key, tree_ in nest.items():
         cd.report("GROUPING", f"nesting:{key}", cd.roundtrip(ctc_model(mb, [tree_])), f"nested constraint ({key})", cc)
+    # names differing only in letter case are different features; equal constraints are both kept
+    root = mb.feature("Root")
+    for nme in ("Db", "DB", "Log"):
+        mb.relation(root, [mb.feature(nme)], 0, 1)
+    cs = [n(o("REQUIRES"), n("Db"), n("Log")), n(o("REQUIRES"), n("DB"), n("Log")), n(o("REQUIRES"), n("Db"), n("Log"))]
+    cd.report("VOC", "case-variant-names+repeated-constraint",
+              cd.roundtrip(mb.model(root, [mb.constraint(f"c{i}", c) for i, c in enumerate(cs)])),
+              "constraints over names that differ only in letter case, one of them repeated",
+              ("constraint", "constraint-count", "name"))
     m1 = cd.cycle_and_return(afm_rich(mb))
     if m1 is not None:
         cd.report("COMBINED", "rich-model", cd.last_rt, "model realising all dimensions at once",
